@@ -1138,6 +1138,16 @@ func genSpotOrderCancel(g *G) *Op {
 	return &Op{Signer: s, Kind: "tradeshield.cancel_spot", Msg: &tstypes.MsgCancelSpotOrder{OwnerAddress: s.Addr.String(), OrderId: o.OrderId}}
 }
 
+// trigDenom: the denom written INTO the trigger price is free-form input next to the order's trading asset; one
+// time in four it names another priced denom (the trigger is still about the order's own trading asset).
+func (g *G) trigDenom(asset string) string {
+	if g.Int("trigdenom", 0, 3) == 0 {
+		ds := g.W.Scenario.Denoms
+		return ds[g.Pick("trigdenom/which", len(ds))]
+	}
+	return asset
+}
+
 func genPerpOrderCreate(g *G) *Op {
 	if len(g.S.PerpPools) == 0 {
 		return nil
@@ -1161,7 +1171,7 @@ func genPerpOrderCreate(g *G) *Op {
 		lev = sdkmath.LegacyNewDec(2)
 	}
 	return &Op{Signer: op.Signer, Kind: "tradeshield.create_perp_open", Msg: &tstypes.MsgCreatePerpetualOpenOrder{OwnerAddress: m.Creator,
-		TriggerPrice: tstypes.TriggerPrice{TradingAssetDenom: m.TradingAsset, Rate: rate}, Collateral: m.Collateral, TradingAsset: m.TradingAsset,
+		TriggerPrice: tstypes.TriggerPrice{TradingAssetDenom: g.trigDenom(m.TradingAsset), Rate: rate}, Collateral: m.Collateral, TradingAsset: m.TradingAsset,
 		Position: pos, Leverage: lev, TakeProfitPrice: m.TakeProfitPrice, StopLossPrice: m.StopLossPrice, PoolId: m.PoolId}}
 }
 
@@ -1176,7 +1186,7 @@ func genPerpCloseOrderCreate(g *G) *Op {
 	}
 	rate := price.MulInt64(int64(g.Int("trig", 80, 120))).QuoInt64(100)
 	return &Op{Signer: owner, Kind: "tradeshield.create_perp_close", Msg: &tstypes.MsgCreatePerpetualCloseOrder{OwnerAddress: owner.Addr.String(),
-		TriggerPrice: tstypes.TriggerPrice{TradingAssetDenom: m.TradingAsset, Rate: rate}, PositionId: m.Id}}
+		TriggerPrice: tstypes.TriggerPrice{TradingAssetDenom: g.trigDenom(m.TradingAsset), Rate: rate}, PositionId: m.Id}}
 }
 
 func (g *G) perpOrder() *tstypes.PerpetualOrder {
@@ -1194,6 +1204,7 @@ func genPerpOrderUpdate(g *G) *Op {
 	s := g.orderSigner(o.OwnerAddress)
 	np := o.TriggerPrice
 	np.Rate = np.Rate.MulInt64(int64(g.Int("uprate", 50, 150))).QuoInt64(100)
+	np.TradingAssetDenom = g.trigDenom(np.TradingAssetDenom)
 	return &Op{Signer: s, Kind: "tradeshield.update_perp", Msg: &tstypes.MsgUpdatePerpetualOrder{OwnerAddress: s.Addr.String(), OrderId: o.OrderId, TriggerPrice: np}}
 }
 
